@@ -70,8 +70,14 @@ def spec_wait(tier):
     grid += [{"n": "2", "form": "wait"}, {"n": "2", "form": "wait_for"}, {"n": "2", "form": "wait_for_it", "second": "then"}]
     if tier != "quick":
         grid += [{"n": "2", "form": "wait", "second": "then"}, {"n": "2", "form": "wait_for", "second": "then"}]
+    # SharedFuture inputs and WaitUntil: judged by the abstract monitors only
+    grid += [{"n": n, "form": f, "second": s, "kind": "shared"} for n, f, s in (
+        ("1", "wait", "get"), ("1", "wait", "then"), ("2", "wait", "get"), ("2", "wait", "then"), ("2", "wait_it", "get"),
+        ("3", "wait_it", "then"))]
+    grid += [{"n": "1", "form": "wait_until", "second": "get"}, {"n": "2", "form": "wait_until", "second": "then"},
+             {"n": "2", "form": "wait_until_it", "second": "get"}]
     return ConcSpec(
-        name="Wait", scenario="wt", grid=grid,
+        name="Wait", scenario="wt", grid=grid, scen_keys=["form", "n", "second", "kind"],
         inv_props=dict(OWN_INVS, **RACE_INVS), primary="C11",
         mc_cfgs=[("Wait_MC.cfg", 8, 900, "Wait: 1-2 producers x {Wait, WaitFor} x {Get, ThenInline} afterwards, deadline anywhere, all interleavings")],
         paths_cfg=None,
